@@ -18,6 +18,7 @@ import EdzedModel.Gen.TranslatedVblk
 import EdzedModel.Gen.TranslatedWiring
 import EdzedProofs.WiringTie
 import EdzedModel.Gen.TranslatedCsig
+import EdzedModel.Gen.TranslatedCBlocks
 import EdzedProofs.CsigTie
 
 namespace Edzed.Wiring
@@ -864,13 +865,13 @@ theorem translated_wiring_keys_kept (c c' : Circ) (hk : KeysOK c) (h : Wiring.fi
 example : KeysOK {} := fun b cls h => by simp at h
 
 /-! #### the signature check of combinational blocks (tools/py2lean_csig.py regenerates
-     `Gen.TrC.…`; EdzedProofs/CsigTie.lean interprets the primitives: `CsigTie.cprims`) -/
+     `Gen.TrCS.…`; EdzedProofs/CsigTie.lean interprets the primitives: `CsigTie.cprims`) -/
 
 open Edzed.CsigTie
 
 /-- `CBlock.input_signature` -/
 theorem translated_csig_input_signature_is_model {V : Type} (c : Circ) (cm) (out : Ref → V) (b : String) :
-    Gen.TrC.inputSignature (cprims c cm out) (c.inputs b) =
+    Gen.TrCS.inputSignature (cprims c cm out) (c.inputs b) =
       (match Wiring.inputSignature c b with
         | .ok l => .ok l
         | .error _ => .error .invalidState) := inputSignature_run c cm out b
@@ -878,7 +879,7 @@ theorem translated_csig_input_signature_is_model {V : Type} (c : Circ) (cm) (out
 /-- `setdiff_msg`: the message has a section for the unexpected names (each with what difflib
     suggests) iff there are any, then one for the missing names iff there are any -/
 theorem translated_csig_setdiff_msg_is_model {V : Type} (c : Circ) (cm) (out : Ref → V) (a e : List String) :
-    Gen.TrC.setdiffMsg (cprims c cm out) a e =
+    Gen.TrCS.setdiffMsg (cprims c cm out) a e =
       .ok (sectsOf cm (a.filter fun k => !e.contains k) (e.filter fun k => !a.contains k)) :=
   setdiffMsg_run c cm out a e
 
@@ -887,37 +888,44 @@ theorem translated_csig_setdiff_msg_is_model {V : Type} (c : Circ) (cm) (out : R
     and raise the ValueError the model's diagnosis describes (names / differing inputs) otherwise;
     an unconnected block raises EdzedInvalidState -/
 theorem translated_csig_check_signature_is_model {V : Type} (c : Circ) (cm) (out : Ref → V) (b : String)
-    (esig : List (String × Expect)) (ee : List (String × Gen.TrC.E)) (he : encSig esig = some ee) :
-    Gen.TrC.checkSignature (cprims c cm out) (c.inputs b) ee =
+    (esig : List (String × Expect)) (ee : List (String × Gen.TrCS.E)) (he : encSig esig = some ee) :
+    Gen.TrCS.checkSignature (cprims c cm out) (c.inputs b) ee =
       (match Wiring.checkSignatureD c b esig, Wiring.inputSignature c b with
         | .ok none, .ok bsig => .ok bsig
         | .ok (some d), _ => .error (excOfDiag cm d)
         | _, _ => .error .invalidState) := checkSignature_run c cm out b esig ee he
 
-/-- `Not.start`, `Compare.start`, `Override.start`: `super().start()` (an empty hook), then
-    `check_signature` with exactly the expectation of the model -/
-theorem translated_csig_library_starts_are_model :
-    (expectedSig .not).bind encSig = some Gen.TrC.notStart ∧
-    (expectedSig .ovr).bind encSig = some Gen.TrC.overrideStart ∧
-    Gen.TrC.compareStart = Gen.TrC.notStart := ⟨rfl, rfl, rfl⟩
+/-- the argument of `check_signature` in a translated `start()` (tools/py2lean_cblocks.py):
+    `super().start()` first, then the check with a literal dict of `None` / sizes -/
+def sigOfStart : List Gen.TrC.StartPrim → Option (List (String × Gen.TrCS.E))
+  | [.superStart, .checkSignature l] => some (l.map fun p => (p.1, p.2.map Sum.inl))
+  | _ => none
+
+/-- the CALL SITES: `Not.start`, `Compare.start`, `Override.start` (translated in
+    Gen/TranslatedCBlocks.lean) hand exactly the model's expectation to the `check_signature`
+    translated here -/
+theorem translated_sig_start_call_sites :
+    sigOfStart Gen.TrC.notStart = (expectedSig .not).bind encSig ∧
+    sigOfStart Gen.TrC.compareStart = (expectedSig .not).bind encSig ∧
+    sigOfStart Gen.TrC.overrideStart = (expectedSig .ovr).bind encSig := ⟨rfl, rfl, rfl⟩
 
 /-- `Circuit.getblocks`: all blocks in creation order, or those of the class asked for -- the
     snapshots `_finalize` takes are the model's `cblockNames` / `notNames` -/
 theorem translated_csig_getblocks_is_model {V : Type} (c : Circ) (cm) (out : Ref → V) :
-    Gen.TrC.getblocks (cprims c cm out) c.order none = .ok c.order ∧
-    Gen.TrC.getblocks (cprims c cm out) c.order (some .cblock) = .ok (cblockNames c) ∧
-    Gen.TrC.getblocks (cprims c cm out) c.order (some .not) = .ok (notNames c) := getblocks_run c cm out
+    Gen.TrCS.getblocks (cprims c cm out) c.order none = .ok c.order ∧
+    Gen.TrCS.getblocks (cprims c cm out) c.order (some .cblock) = .ok (cblockNames c) ∧
+    Gen.TrCS.getblocks (cprims c cm out) c.order (some .not) = .ok (notNames c) := getblocks_run c cm out
 
 /-- `CBlock.InputGetter.__getitem__` -/
 theorem translated_csig_getitem_is_model {V : Type} (c : Circ) (cm) (out : Ref → V) (b name : String) :
-    Gen.TrC.inputGetterGetitem (cprims c cm out) (c.inputs b) name =
+    Gen.TrCS.inputGetterGetitem (cprims c cm out) (c.inputs b) name =
       (match Wiring.inputGet out c b name with
         | .ok v => .ok v
         | .error _ => .error .keyError) := getitem_run c cm out b name
 
 /-- `CBlock.__init_subclass__` -/
 theorem translated_csig_init_subclass_is_model (hasAddon : Bool) :
-    Gen.TrC.cblockInitSubclass hasAddon =
+    Gen.TrCS.cblockInitSubclass hasAddon =
       (match cblockSubclassAllowed hasAddon with
         | .ok () => .ok ()
         | .error _ => .error .typeError) := by
@@ -1012,20 +1020,30 @@ example : sigDiagnosis [("a", some 0), ("g", some 3)] [("a", .single), ("g", .ra
     with the name of every single input and the tuple of names of every group, in the order of
     `inputs` (an unresolved reference has no `.name`: AttributeError) -/
 theorem translated_csig_get_conf_is_model {V : Type} (c : Circ) (cm) (out : Ref → V) (b : String) :
-    Gen.TrC.cblockGetConf (cprims c cm out) c.finalized (c.inputs b) =
+    Gen.TrCS.cblockGetConf (cprims c cm out) c.finalized (c.inputs b) =
       (match Wiring.getConfInputs c b with
         | none => .ok { type := "combinational", inputs := none }
         | some none => .error .attributeError
         | some (some l) => .ok { type := "combinational", inputs := some (l.map fun p => (p.1, confSum p.2)) }) :=
   getConf_run c cm out b
 
-/-- `FuncBlock.start`: the translated `try / except TypeError / finally` IS the model's check, and
-    `self._func` holds the user's function again afterwards, whether the check failed or not -/
-theorem translated_csig_funcblock_start_is_model (f : FSig) (unpack : Bool) (ins : Inputs) :
-    Gen.TrC.funcBlockStart (fprims f unpack ins) false =
-      (false, match Wiring.funcStart f unpack ins with
-        | .ok () => .ok ()
-        | .error _ => .error "TypeError") := funcBlockStart_run f unpack ins
+/-- what the trial call of `FuncBlock.start` raises: `bind` of the function's signature refuses the
+    connected inputs with TypeError -/
+def trialOf (f : FSig) (unpack : Bool) (ins : Inputs) : Option String :=
+  match Wiring.funcStart f unpack ins with
+  | .ok () => none
+  | .error _ => some "TypeError"
+
+/-- the CALL SITE of the binding: the translated `FuncBlock.start` (Gen/TranslatedCBlocks.lean), given
+    what the trial call does for a function with signature `f`, goes on to the base class exactly
+    when the function can be called with the connected inputs, and raises TypeError otherwise -- the
+    user's function restored first in both cases -/
+theorem translated_sig_funcblock_start_call_site (f : FSig) (unpack : Bool) (ins : Inputs) :
+    Gen.TrC.funcBlockStart (trialOf f unpack ins) =
+      .saveFunc :: .setFunc .bind :: .calcOutput :: .setFunc .user ::
+        [if f.binds (callShape unpack ins).1 (callShape unpack ins).2 then .superStart else .raise "TypeError"] := by
+  unfold trialOf Wiring.funcStart
+  cases f.binds (callShape unpack ins).1 (callShape unpack ins).2 <;> rfl
 
 /-- `FuncBlock.start` accepts exactly the connection sets the function can be called with: the
     members of the unnamed group as positional arguments (or the whole group as one argument when
